@@ -1118,3 +1118,17 @@ Proof.
   change (forallb is_ascii [xc5; xbf; x65; x74; x2d; x63; x6f; x6f; x6b; x69; x65]) with false. cbv iota.
   rewrite H. split; vm_compute; reflexivity.
 Qed.
+
+(* Model/Headers.v's hparse (what the message-parser model calls) is the stateful version without the state
+   left behind by a failing call *)
+Lemma hparse_lines_st ls : forall h cur,
+  hparse_lines h cur ls = let '(h', ok) := hparse_st h cur ls in if ok then Some h' else None.
+Proof.
+  induction ls as [|l ls IH]; intros h cur; [reflexivity|]. cbn [hparse_lines hparse_st].
+  destruct cur as [[name raw]|].
+  - destruct (starts_ws l); [apply IH|]. destruct (parse_line l); [apply IH | reflexivity].
+  - destruct (parse_line l); [apply IH | reflexivity].
+Qed.
+Lemma hparse_st_agree h d :
+  hparse h d = let '(h', ok) := hparse_st h None (split_all CRLF d) in if ok then Some h' else None.
+Proof. apply hparse_lines_st. Qed.
